@@ -24,7 +24,7 @@ log = os.path.join(root, "mutants", "results.txt")
 if os.path.exists(log):
     for l in open(log):
         p = l.split()
-        if len(p) < 4:
+        if l.startswith('#') or len(p) < 4:
             continue
         name, prop = p[0], p[1]
         desc = open(os.path.join(root, "mutants", name + ".txt")).read().splitlines()[1]
